@@ -1,15 +1,15 @@
 CONSTANTS
  Vals = {"a", "b", "c"}
  V0 = "a"
- MaxEdits = 3
- MaxTrans = 2
+ MaxEdits = 1
+ MaxTrans = 1
  AccelAllowed = TRUE
  FullScans = TRUE
  ResetInTransition = TRUE
  ResetBeforeWindow = FALSE
  StrobeInTransition = TRUE
  PartialOutcomes = TRUE
- ShallowChangeTest = FALSE
+ ShallowChangeTest = TRUE
  CacheFromPoller = FALSE
  FixLevel = 2
 INIT Init
